@@ -1,4 +1,4 @@
-import TinsModel.RadioTap.LemmasSer
+import TinsModel.RadioTap.LemmasDecode
 /- Property C11 — RadioTap fields can be set in any order and read back.
    Theorems only (helper lemmas live in TinsModel/RadioTap/Lemmas*.lean).  The model (`writeOption`, `doFindOption`,
    `present`, `trailerSize`, `applyWrites`, `defaultCtor`) runs on the field table generated from the source
@@ -65,6 +65,18 @@ theorem setters_any_order_from (m0 : FMap) (hm : sized stdMeta m0) (ver pad : Na
       = .ok { version := ver, pad := pad, payload := canonical stdMeta (lastWrite m0 ws) } := by
   rw [gen_meta_eq_std]
   exact applyWrites_canonical (gen_meta_eq_std ▸ gen_meta_wf) ws m0 ver pad hm h
+
+/-- histories that start from a *parsed* header: whenever the (decidable) oracle test `decodeCanonical` accepts the
+    parsed options payload `buf` with field list `fs` — a single present word, known fields only, every field at its
+    aligned offset, nothing else — `buf` is the canonical payload of the sized map `mapOfList fs`, and every finite
+    sequence of valid writes leads to the canonical payload of the last-write map over it. -/
+theorem setters_any_order_parsed (buf : Bytes) (fs : List (Nat × Bytes)) (hdec : decodeCanonical stdMeta buf = some fs)
+    (ver pad : Nat) (ws : List (Nat × Bytes)) (h : ∀ w ∈ ws, validWrite stdMeta w) :
+    applyWrites genMeta ws { version := ver, pad := pad, payload := buf }
+      = .ok { version := ver, pad := pad, payload := canonical stdMeta (lastWrite (mapOfList fs) ws) } := by
+  obtain ⟨hm, hbuf, _⟩ := decodeCanonical_sound stdMeta buf fs hdec
+  rw [hbuf]
+  exact setters_any_order_from _ hm ver pad ws h
 
 /-- **getters = last write** — on the canonical payload of a map, looking a field up yields the stored value, and
     `field_not_present` for a field that was never written. -/
@@ -140,6 +152,8 @@ example : ∀ w ∈ [((18 : Nat), ([1, 2, 3, 4, 5, 6, 7, 8] : Bytes)), (2, [7]),
 example : sized stdMeta defaultMap := default_sized
 
 example : (lastWrite defaultMap [(2, [7]), (2, [9])]) 2 = some [9] := by decide
+
+example : decodeCanonical stdMeta (canonical stdMeta defaultMap) = some (fieldList stdMeta defaultMap) := by decide
 
 example : fcsOn defaultMap = true ∧ badFcs defaultMap = false ∧ 4 + (canonical stdMeta defaultMap).length = 26 := by decide
 
